@@ -122,7 +122,9 @@ def run(ctx):
             for l in open(os.path.join(cdir, fn)):
                 l = l.strip()
                 if l and not l.startswith("#"):
-                    streams.append(dict(hex=l, params=None, origin="corpus/" + fn))
+                    t = l.split()
+                    streams.append(dict(hex=t[0], params=None, origin="corpus/" + fn,
+                                        sched=[int(x) for x in t[2:]] if len(t) > 2 and t[1] == "sched" else []))
     nsmall = ctx.n(36, 400)
     nbig = ctx.n(6, 60)
     plist = [gen_params(rng, i, False) for i in range(nsmall)] + [gen_params(rng, 100 + i, True) for i in range(nbig)]
@@ -167,8 +169,7 @@ def run(ctx):
                     cmds.append("rand 0 %d %d %d %d" % (api, sv, srng.below(1 << 40), ctx.n(40, 150) if n <= 9000 else ctx.n(8, 30)))
                     plan.append(("rand", api, sv))
                 # buffered-image schedules (api >= 2 = schedule seed): whole buffer and suspending source
-                for _ in range(ctx.n(6, 20)):
-                    k = 2 + srng.below(1 << 20)
+                for k in s.get("sched", []) + [2 + srng.below(1 << 20) for _ in range(ctx.n(6, 20))]:
                     cmds.append("ref 0 %d %d" % (k, sv)); plan.append(("sched", 1, sv))
                     cmds.append("one 0 %d %d %d" % (k, sv, srng.choice([1, 2, 5, 64, 1000]))); plan.append(("sched", 1, sv))
                     cmds.append("rand 0 %d %d %d %d" % (k, sv, srng.below(1 << 40), 3)); plan.append(("rand", k, sv, 1))
@@ -259,6 +260,44 @@ def run(ctx):
                                                "model and jpeg_read_header differ on %s savecfg %d partition [%s]: %s" % (
                                                    s["origin"][:120], sv, pt[:60], da))
                         ctx.count("model-hdr", 1, ("hdr", ml[:300], len(pt) > 0))
+
+    # ------------------------------------------- Huffman scan model vs jpeg_read_coefficients
+    if drv:
+        crng = core.SplitMix64(ctx.seed * 31337 + 3)
+        sp = []
+        for i in range(ctx.n(14, 120)):
+            proc = crng.choice([0, 0, 0, 1])
+            nc = crng.choice([1, 3, 3, 4])
+            sp.append(dict(proc=proc, w=crng.range(1, 26), h=crng.range(1, 20), nc=nc, sub=crng.below(5),
+                           q=crng.choice([30, 75, 95, 100]), rst=crng.choice([0, 0, 1, 2, 5, -1]),
+                           seed=crng.below(1 << 30), jm=0, marks=[]))
+        lines = []
+        for p_ in sp:
+            lines += [gen_line(0, p_), "coef 0"]
+        rc, res, err = r0.run(lines)
+        mcmds, metas = [], []
+        for i, p_ in enumerate(sp):
+            if 2 * i + 1 >= len(res) or not res[2 * i].startswith("gen"):
+                continue
+            hx = res[2 * i].split()[3]
+            n = len(hx) // 2
+            for pt in ("", "1 " * min(n, 1200), " ".join(str(crng.range(0, 12)) for _ in range(60)) + " 5000"):
+                mcmds.append("s | %s | %s" % (hx, pt)); metas.append((p_, res[2 * i + 1], pt))
+        rc2, mres, err2 = sh2([drv], input=("\n".join(mcmds) + "\n").encode(), timeout=900)
+        mres = mres.decode().split("\n")
+        if rc2 != 0 or len(mres) < len(mcmds):
+            ctx.broken_tie("model-driver", "extracted scan model failed: rc=%d %s" % (rc2, err2[-200:]))
+        else:
+            for (p_, hl, pt), ml in zip(metas, mres):
+                corr += 1
+                if ml != hl:
+                    disagree += 1
+                    if disagree <= 3:
+                        ctx.log("scan model/impl disagree", gen_line(0, p_), pt[:30], ml, hl)
+                        ctx.broken_tie("correspondence:huffman-scan",
+                                       "model decode_mcu units and jpeg_read_coefficients differ on %s partition [%s]: %s vs %s" % (
+                                           gen_line(0, p_), pt[:40], ml, hl))
+                ctx.count("model-scan", 1, ("scan", ml, len(pt) > 0))
 
     # ---------------------------------------------------------------- encoder
     erng = core.SplitMix64(ctx.seed * 77 + 5)
